@@ -66,7 +66,7 @@ let () =
       let m = the_msg () in
       let cl = clevel_of (the_slevel ()) m.m_hdr_size in
       match trav_message !cur_be !cur_buf m cl !cur_base with
-      | COk (evs, c) -> Printf.sprintf "%s c=%s" (show_events evs) (rel c)
+      | COk (evs, c) -> String.trim (Printf.sprintf "%s c=%s" (show_events evs) (rel c))
       | CAssert -> "ASSERT"
       | COob -> "OOB");
   (* cur <path> <cstart|init> op... ; op = f<k><w>[:prim] | g<k><w> | d<k><w> *)
